@@ -3,6 +3,7 @@ package props
 import (
 	"fmt"
 	"os"
+	"path"
 	"path/filepath"
 	"sort"
 	"strings"
@@ -37,7 +38,13 @@ type c14Case struct {
 	Vars  map[string]string `json:"vars"` // string bindings used by variable-style arguments
 	N     int               `json:"n"`
 	Late  bool              `json:"late,omitempty"` // ParseTemplateAndCache registrations happen after the top template was parsed
+	// a second top-level template, in the sub-directory d1, rendered on the same engine after the first;
+	// its targets (and those of everything it includes) are relative to d1
+	Top2 []c14Piece `json:"top2,omitempty"`
 }
+
+// c14Resolve gives the root-relative name of target for a render whose top template lives in base.
+func c14Resolve(base, target string) string { return path.Clean(path.Join(base, target)) }
 
 func (c *c14Case) file(name string) *c14File {
 	for i := range c.Files {
@@ -101,7 +108,7 @@ func (c *c14Case) effective(name string) ([]c14Piece, bool) {
 }
 
 // inline replaces every include, recursively, by the content that is used; ok=false when some include cannot be resolved.
-func (c *c14Case) inline(ps []c14Piece, depth int, vars map[string]string) (string, bool) {
+func (c *c14Case) inline(ps []c14Piece, depth int, vars map[string]string, base string) (string, bool) {
 	var sb strings.Builder
 	for _, p := range ps {
 		if p.Target == "" {
@@ -111,11 +118,11 @@ func (c *c14Case) inline(ps []c14Piece, depth int, vars map[string]string) (stri
 		if p.Style == 3 {
 			sb.WriteString("{% assign inc_t = \"" + p.Target + "\" %}")
 		}
-		content, ok := c.effective(p.Target)
+		content, ok := c.effective(c14Resolve(base, p.Target))
 		if !ok || depth > 8 {
 			return "", false
 		}
-		inner, ok := c.inline(content, depth+1, vars)
+		inner, ok := c.inline(content, depth+1, vars, base)
 		if !ok {
 			return "", false
 		}
@@ -132,11 +139,16 @@ var c14Graph = hx.Define("c14.graph", func(c *c14Case, s *hx.Sub) *hx.Violation 
 		base = os.TempDir()
 	}
 	c14Seq++
-	dir, err := os.MkdirTemp(base, fmt.Sprintf("c14-%d-", c14Seq))
+	tmp, err := os.MkdirTemp(base, fmt.Sprintf("c14-%d-", c14Seq))
 	if err != nil {
 		return hx.V("harness-error", "mkdir: %v", err)
 	}
-	defer os.RemoveAll(dir)
+	defer os.RemoveAll(tmp)
+	// the top template's directory is one level down, so that names may lead out of it ("../up.html")
+	dir := filepath.Join(tmp, "site")
+	if err := os.MkdirAll(filepath.Join(dir, "d1"), 0o755); err != nil {
+		return hx.V("harness-error", "mkdir: %v", err)
+	}
 	vars := map[string]string{}
 	for k, v := range c.Vars {
 		vars[k] = v
@@ -163,6 +175,7 @@ var c14Graph = hx.Define("c14.graph", func(c *c14Case, s *hx.Sub) *hx.Violation 
 		}
 	}
 	top := c14Source(c.Top, vars)
+	top2 := c14Source(c.Top2, vars)
 	binds := func() map[string]any {
 		b := map[string]any{"n": c.N, "a": []any{1, 2}, "s": "str"}
 		for k, v := range vars {
@@ -200,6 +213,9 @@ var c14Graph = hx.Define("c14.graph", func(c *c14Case, s *hx.Sub) *hx.Violation 
 	desc := func() string {
 		var sb strings.Builder
 		fmt.Fprintf(&sb, "top.html = %q", top)
+		if len(c.Top2) > 0 {
+			fmt.Fprintf(&sb, "\n     d1/top2.html (rendered afterwards on the same engine) = %q", top2)
+		}
 		for _, f := range c.Files {
 			fmt.Fprintf(&sb, "\n     %s:", f.Name)
 			if f.OnDisk {
@@ -214,7 +230,26 @@ var c14Graph = hx.Define("c14.graph", func(c *c14Case, s *hx.Sub) *hx.Violation 
 		}
 		return sb.String()
 	}
-	inl, ok := c.inline(c.Top, 0, vars)
+	// the second top-level template: same engine, other directory
+	if len(c.Top2) > 0 {
+		top2Path := filepath.Join(dir, "d1", "top2.html")
+		got2 := hx.RenderAt(eng, top2, top2Path, 1, binds())
+		if got2.Panic != nil {
+			return hx.V("panic@"+got2.Panic.Site, "%q: %v", top2, got2.Panic)
+		}
+		if inl2, ok := c.inline(c.Top2, 0, vars, "d1"); ok {
+			want2 := hx.RenderAt(newEngine(nil), inl2, top2Path, 1, binds())
+			if !got2.Same(want2) {
+				return hx.V("c14:differs-from-inlined", "%s\n   d1/top2.html renders %v\n   but with every include replaced by the content that is to be used (names relative to d1), %q, it renders %v", desc(), got2, inl2, want2)
+			}
+			if got2.OK() {
+				s.Class("second-top-template")
+			}
+		} else if got2.Err == nil {
+			return hx.V("c14:missing-file-no-error", "%s\n   d1/top2.html rendered %q although an included file exists neither on disk nor in the cache", desc(), got2.Out)
+		}
+	}
+	inl, ok := c.inline(c.Top, 0, vars, ".")
 	if !ok {
 		if got.Err == nil {
 			return hx.V("c14:missing-file-no-error", "%s\n   rendered %q although an included file exists neither on disk nor in the cache", desc(), got.Out)
@@ -240,6 +275,9 @@ var c14Graph = hx.Define("c14.graph", func(c *c14Case, s *hx.Sub) *hx.Violation 
 	for _, f := range c.Files {
 		if strings.Contains(f.Name, "/") {
 			nested = true
+		}
+		if strings.HasPrefix(f.Name, "../") && strings.Contains(top, f.Name) {
+			s.Class("target-above-the-directory")
 		}
 		if f.InCache && !f.OnDisk {
 			cached = true
@@ -294,11 +332,11 @@ func TestC14(t *testing.T) {
 	col.Corpus()
 	env := col.Env
 
-	g := c14Graph.On(col, "rapid: acyclic include graphs (chains up to depth 4 in the top template's directory, leaves in nested sub-directories, the same base name in several directories with distinct content) laid out in a fresh temporary directory per case; every file is independently on disk, only registered through ParseTemplateAndCache, both with different content, zero bytes on disk with cached source, or missing; include arguments spelled as double/single-quoted literals, bound variables, variables assigned earlier in the render and filtered expressions; bodies print bound and includer-assigned variables, loop and branch. Metamorphic oracle: render(T) = render(T with every include replaced, recursively, by the content the statement selects: disk over cache), same path and bindings; a missing file fails the render with no output; an error inside an included template fails both. Non-trivial: an include resolved from a nested directory, from the cache, or with disk and cache disagreeing; distinct by layout", false)
+	g := c14Graph.On(col, "rapid: acyclic include graphs (chains up to depth 4 in the top template's directory, leaves in nested sub-directories and above the directory (../up.html), the same base name in several directories with distinct content; for a third of the cases a second top-level template in the sub-directory d1 is rendered on the same engine afterwards and reaches the same files under other relative names) laid out in a fresh temporary directory per case; every file is independently on disk, only registered through ParseTemplateAndCache, both with different content, zero bytes on disk with cached source, or missing; include arguments spelled as double/single-quoted literals, bound variables, variables assigned earlier in the render and filtered expressions; bodies print bound and includer-assigned variables, loop and branch. Metamorphic oracle: render(T) = render(T with every include replaced, recursively, by the content the statement selects: disk over cache), same path and bindings; a missing file fails the render with no output; an error inside an included template fails both. Non-trivial: an include resolved from a nested directory, from the cache, or with disk and cache disagreeing; distinct by layout", false)
 	texts := []string{"t", " [{{ n }}] ", "{{ s | upcase }}", "{% assign pv = n | plus: 1 %}{{ pv }}", "{% if n == 1 %}one{% else %}other{% endif %}", "{% for q in a %}{{ q }},{% endfor %}", "{{ shared }}", "\n", "{% assign shared = \"set-by-includer\" %}", "{{ 1 | divided_by: n }}"}
 	genText := func(t *rapid.T, tag string) c14Piece {
 		txt := rapid.SampledFrom(texts).Draw(t, "text")
-		if tag != "top" && strings.Contains(txt, "assign shared") {
+		if tag != "top" && tag != "top2" && strings.Contains(txt, "assign shared") {
 			// variables assigned inside an included template are not promised to reach the includer,
 			// so only the top template assigns a name that others read
 			txt = "{{ shared }}"
@@ -307,7 +345,7 @@ func TestC14(t *testing.T) {
 	}
 	col.Rapid(g.Sub, env.PerShard(env.Pick(8000, 100000)), func(t *rapid.T) {
 		c := &c14Case{N: rapid.IntRange(0, 2).Draw(t, "n"), Vars: map[string]string{}, Late: rapid.IntRange(0, 2).Draw(t, "late") == 0}
-		leaves := []string{"leaf.html", "d1/leaf.html", "d1/d2/leaf.html", "x-y.txt"}
+		leaves := []string{"leaf.html", "d1/leaf.html", "d1/d2/leaf.html", "x-y.txt", "../up.html", "d1/b.html", "../leaf.html"}
 		// files in sub-directories that include further: every relative name is resolved against the directory of
 		// the path the *rendered template* was parsed with, i.e. the top template's directory, at every depth
 		mids := []string{"d1/other.html", "d1/d2/mid.html"}
@@ -369,6 +407,14 @@ func TestC14(t *testing.T) {
 				target = rapid.SampledFrom(append(append(append([]string{}, leaves...), mids...), chain...)).Draw(t, "toptarget")
 			}
 			c.Top = append(c.Top, c14Piece{Target: target, Style: style()}, genText(t, "top"))
+		}
+		if rapid.IntRange(0, 2).Draw(t, "second") == 0 {
+			// targets as seen from d1: files of the top directory via "../", files of d1 directly
+			from := []string{"../a.html", "../a.html", "leaf.html", "d2/leaf.html", "../../up.html", "../leaf.html", "b.html", "../b.html", "other.html"}
+			c.Top2 = []c14Piece{genText(t, "top2")}
+			for i, n := 0, rapid.IntRange(1, 2).Draw(t, "top2incs"); i < n; i++ {
+				c.Top2 = append(c.Top2, c14Piece{Target: rapid.SampledFrom(from).Draw(t, "top2target"), Style: style()}, genText(t, "top2"))
+			}
 		}
 		if v := g.Run(c); v != nil {
 			t.Fatalf("%s", v.Message)
